@@ -37,6 +37,18 @@ def c04_models(tier, clock="after_newdate", order="by_time", maxopt=None):
                       invariants=C04_INV, clock=clock, order=order)]
 
 
+def many_events_model(clock="after_newdate", order="by_time"):
+    """one long stream (27 events, all present) with many shared timestamps, inserted out of time order: ties must be
+    delivered in insertion order however long the stream is (sorting shortcuts tend to be stable only on short inputs)"""
+    cs = candidates_c04()
+    g0, g1, g2 = G[0], G[1], G[2]
+    ties = [g1, g0 + 1, g1, g0 + L, g2, g1 + L, g0 + 1, g1, g0, g2, g0 + L, g1 + L]
+    for i, t in enumerate(ties):
+        cs.append(cand(t, "q", "AB"[i % 2], 10 + i, 12 + i) if i % 3 == 0 else cand(t, "x"))
+    return env_model("deliver-many", G[:3], cs, range(1, len(cs) + 1), 0, [0, L], [FOLD_ALL, (G[1], G[2])],
+                     [(False, -1), (True, -1)], maxcalls=4, invariants=C04_INV, clock=clock, order=order)
+
+
 def subsecond_model(tier, invariants, clock="after_newdate", order="by_time", name="subsecond"):
     """a lattice in units of 0.1 ms: events one tick (0.0001 s) and half a second beyond the latency bound, and either
     side of midnight; three timesteps within two days so that times stay inside 32 bits"""
@@ -66,7 +78,7 @@ def c04(tier, seed):
     rep = core.Report("C04", tier, seed)
     rep.assumptions = list(ASSUME) + ["a second lattice in units of 0.1 ms covers sub-second stamps around the latency bound "
                                       "and midnight"]
-    run_models(rep, c04_models(tier) + [subsecond_model(tier, C04_INV)], clauses_of("C04"))
+    run_models(rep, c04_models(tier) + [subsecond_model(tier, C04_INV), many_events_model()], clauses_of("C04"))
     # code -> spec: the repository's own regression back-tests under the recording plugin, validated by TLC (EnvTrace.tla)
     from . import envtrace_check
     envtrace_check.validate_repo_tests(rep, tier, clauses_of("C04"))
@@ -101,6 +113,13 @@ def c08_models(tier, null="in_space"):
                                                                                  cand(G[1] + L, "q", "A", 92, 93)],
                         range(1, n + 1), 2, [L], [FOLD_ALL], [(False, -1)], delays=(1, 2), spaces=("box",),
                         maxcalls=n + 2, reset_anywhere=True, invariants=C08_INV, trade=True, null=null))
+    # Markovian transmitter, episodes of a requested length starting at a drawn position, then episodes stepping through
+    # the earlier starting points: what an execution is priced at never depends on where earlier episodes began
+    ms.append(env_model("fifo-markov-episodes", G[:n], bar_candidates(n, extras=False) + [cand(G[0] + 10, "q", "A", 90, 91),
+                                                                                          cand(G[1] + L, "q", "A", 92, 93),
+                                                                                          cand(G[2] + L + 1, "q", "A", 94, 95)],
+                        range(1, n + 1), 1, [0, L], [FOLD_ALL], [(True, -1)], delays=(0, 1), spaces=("box",),
+                        maxcalls=n + 1, reset_anywhere=True, invariants=C08_INV, trade=True, null=null, resetlens=(0, 2)))
     # sub-second stamps around the latency bound, with trading
     sub = subsecond_model(tier, C08_INV, name="fifo-subsecond")
     ms.append(sub)
@@ -155,7 +174,7 @@ def c17_models(tier):
     bads = [(0, "ok")] + [(at, cls) for at in (1, 2, 3) for cls in ("shape", "below", "above", "nan", "index")]
     inv = ["MalformedNeverExecutes", "RejectedByDueStep", "MalformedRejected", "FifoDelay"]
     return [env_model("malformed", G[:n], cs, range(1, n + 1), 0, [0], [FOLD_ALL], [(False, -1)],
-                      delays=(0, 1, 2), spaces=("box", "discrete", "boxcash", "boxlots"), bads=bads, maxcalls=n,
+                      delays=(0, 1, 2), spaces=("box", "discrete", "boxcash", "boxlots", "disclots"), bads=bads, maxcalls=n,
                       reset_anywhere=False, trade=True, invariants=inv),
             # a space whose bounds exclude zero (the all-zero action is the "below" class there); no delay, because the
             # null action that a delay queues is itself outside such a space
